@@ -607,3 +607,73 @@ async fn f13(confirmation: iggy::confirmation::Confirmation) {
         assert!(m.payload.iter().all(|b| *b == b'a' + i as u8), "F13: payload {i} content");
     }
 }
+
+/// F132 — C02 (a poll returns the messages stored in the requested range), C04 `[C04.publish.bound]`.
+/// A send under wait-confirmation followed at once by a poll from disk (cache off). tokio's `File::write*`
+/// returns when the data is in the file's buffer; the copy to the file runs on a blocking thread and is only
+/// complete after a flush. The published log size (and, with `cache_indexes = false`, the published index
+/// size) must not run ahead of what a reader can see.
+#[tokio::test(flavor = "multi_thread", worker_threads = 4)]
+async fn f132_poll_right_after_acknowledged_save_cached_indexes() {
+    f132(true).await;
+}
+
+#[tokio::test(flavor = "multi_thread", worker_threads = 4)]
+async fn f132_poll_right_after_acknowledged_save_indexes_on_disk() {
+    f132(false).await;
+}
+
+async fn f132(cache_indexes: bool) {
+    let mut short = 0;
+    for round in 0..200u128 {
+        let dir = TempDir::new().unwrap();
+        let config = Arc::new(SystemConfig {
+            path: dir.path().to_str().unwrap().to_string(),
+            cache: CacheConfig {
+                enabled: false,
+                ..Default::default()
+            },
+            partition: PartitionConfig {
+                messages_required_to_save: 1,
+                ..Default::default()
+            },
+            segment: SegmentConfig {
+                size: IggyByteSize::from(HUGE_SEGMENT),
+                cache_indexes,
+                ..Default::default()
+            },
+            ..Default::default()
+        });
+        let mut p = new_partition(config.clone(), true).await;
+        p.persist().await.unwrap();
+        for k in 0..1u128 {
+            let big = vec![iggy::messages::send_messages::Message::new(
+                Some(round * 2 + k + 1),
+                bytes::Bytes::from(vec![b'x'; 512 * 1024]),
+                None,
+            )];
+            let size = batch_size(&big);
+            p.append_messages(
+                server::streaming::batching::appendable_batch_info::AppendableBatchInfo::new(size, 1),
+                big,
+                None,
+            )
+            .await
+            .expect("append_messages");
+        }
+        let polled = p.get_messages_by_offset(0, 1).await;
+        match polled {
+            Ok(v) if v.len() == 1 && v[0].offset == 0 && v[0].payload.len() == 512 * 1024 => {}
+            other => {
+                short += 1;
+                if short < 4 {
+                    eprintln!(
+                        "round {round}: poll right after the acknowledged save returned {:?}",
+                        other.map(|v| v.iter().map(|m| m.offset).collect::<Vec<_>>())
+                    );
+                }
+            }
+        }
+    }
+    assert_eq!(short, 0, "F132: {short}/200 polls issued right after an acknowledged (wait) save did not return the saved message");
+}
